@@ -141,6 +141,9 @@ struct ISpline
     virtual Grads propagate(const MatrixXd &gC, const VectorXd &gT, bool refOverload) = 0;
     // refOverload variant writing into a Gradients object that already holds (stale) data of another size
     virtual Grads propagateIntoStale(const MatrixXd &gC, const VectorXd &gT, int staleRows) = 0; // staleRows < 0: same shape as the result
+    // reference overload with the upstream duration gradient living in the receiving object: g.times = gT; propagateGrad(gC, g.times, g)
+    virtual Grads propagateAliasedTimes(const MatrixXd &gC, const VectorXd &gT) = 0;
+    virtual VectorXd trajEvalHint(double t, int *hint, int k) const = 0; // getTrajectory().evaluate(t, &hint, k)
     // reference overloads writing into caller-owned objects that already hold other (stale, non-zero) content
     virtual MatrixXd partialCStale(bool sameShape) const = 0;
     virtual VectorXd partialTStale(bool sameShape) const = 0;
